@@ -4,6 +4,7 @@ C35 — Meaning-preserving source rewrites (partial): theorems for the modelled 
 by `props/C35.py` (original vs. rewritten source through the real compiler).
 -/
 import RsassModel.Rewrite.Lemmas
+import RsassModel.Rewrite.Callables
 namespace C35
 open Rewrite
 
@@ -258,5 +259,33 @@ theorem move_fragment_into_partial (pre frag post : List Stmt) (s : State) :
     | nil => rfl
     | cons t ts ih => cases t <;> simp [inlineImports, ih]
   simp [happ, h, inlineImports]
+
+/-! ### renaming functions and mixins (small language extended by definitions and calls) -/
+
+/-- **Renaming a function consistently** (definition table and every call, by an injective `ρ`)
+does not change any value — wherever the calls are nested. -/
+theorem rename_function_invariant (ρ : Text → Text) (hρ : ∀ a b, ρ a = ρ b → a = b) (defs : FunDefs)
+    (env : Env) (e : FExpr) : evalF (renKeys ρ defs) env (e.renameFn ρ) = evalF defs env e :=
+  evalF_renameFn ρ hρ defs env e
+
+/-- **Renaming functions and mixins consistently** (independent injective renamings of the two name
+spaces): the program with `@include`s and function calls runs to the same state and output. -/
+theorem rename_callables_invariant (ρf ρm : Text → Text) (hf : ∀ a b, ρf a = ρf b → a = b)
+    (hm : ∀ a b, ρm a = ρm b → a = b) (funs : FunDefs) (mixins : MixDefs) (p : List MStmt) (s : State) :
+    execM (renKeys ρf funs) (renKeys ρm mixins) s (p.map (MStmt.renameCallables ρf ρm)) = execM funs mixins s p :=
+  execM_rename ρf ρm hf hm funs mixins p s
+
+/-- the two name spaces are separate: a function and a mixin may even swap names -/
+example : ∃ (funs : FunDefs) (mixins : MixDefs) (p : List MStmt),
+    (execM funs mixins ⟨[], []⟩ p).map (·.out) = some [Val.num 7, Val.num 1] :=
+  ⟨[("f".toList, ("x".toList, .add (.var "x".toList) (.num 2)))], [("m".toList, [.emit (.num 1)])],
+    [.emitF (.call "f".toList (.num 5)), .include_ "m".toList], by decide⟩
+
+/-- a renaming that merges two functions changes the result (injectivity is needed) -/
+theorem rename_function_needs_injective :
+    let defs : FunDefs := [("f".toList, ("x".toList, .num 1)), ("g".toList, ("x".toList, .num 2))]
+    evalF (renKeys (fun _ => "h".toList) defs) [] ((FExpr.call "g".toList (.num 0)).renameFn fun _ => "h".toList)
+      ≠ evalF defs [] (.call "g".toList (.num 0)) := by
+  decide
 
 end C35
